@@ -407,7 +407,96 @@ def plan_c15(prop, tier, seed, t0):
                       thorough={"mc": dict(MaxOps=7, MaxMsgs=5)})
 
 
+def scenario_check(prop, tier, seed, t0, scenarios, mc=None, explore=(), level_note="", extra_cov=None):
+    """Checks driven by scenario families (and optionally a model-checking run of another module)."""
+    quick = tier == "quick"
+    work = os.path.join(V.WORK, prop)
+    shutil.rmtree(work, ignore_errors=True)
+    os.makedirs(work)
+    build_s = V.build_harness()
+    violations = []
+    mcres = None
+    if mc:
+        mcres = mc(work, quick, violations)
+    scn_path = os.path.join(work, "scenarios.ndjson")
+    V.write_scenarios(scn_path, scenarios)
+    chunks = 8 if quick else 16
+    traces = V.dvh_replay(scn_path, os.path.join(work, "replay"), chunks)
+    for (profile, nq, nt) in explore:
+        n = nq if quick else nt
+        traces += V.dvh_explore(profile, seed * 100000, seed * 100000 + n, os.path.join(work, "explore-" + profile), chunks)
+    results = V.validate_traces(traces, work, parallel=8 if quick else 14)
+    return finish(prop, tier, seed, t0, work, mcres, scenarios, traces, results, violations, len(scenarios), build_s,
+                  level_note, extra_cov=extra_cov)
+
+
+def call(c, **kw):
+    return {"do": "call", "c": c, "call": kw}
+
+
+def start(h, c, **kw):
+    return {"do": "start", "h": h, "c": c, "call": kw}
+
+
+def scn(sid, steps, seed=0, cap=16, phase=0, src="family", extra_proj=None):
+    proj = V.proj_map()
+    if extra_proj:
+        proj.update(extra_proj)
+    return {"id": sid, "cap": cap, "seed": seed, "phase": phase,
+            "meta": {"clock": "paused", "proj": proj, "src": src}, "steps": steps}
+
+
+def c12_scenarios(n_seeds, seed):
+    out = []
+    for k in range(n_seeds):
+        sd = seed * 1000 + k
+        cap = (16, 1, 2)[k % 3]
+        pre = [call(1, op="CreateTopic", name=T1), call(1, op="CreateSub", name=S1, topic=T1, ack=10)]
+        if k % 2:
+            pre.append(call(1, op="Publish", topic=T1, msgs=[{"p": "pre-%d" % k}]))
+        y = {"do": "yield", "n": 1 + (k % 4)}
+        # A: StreamingPull with its request side open.
+        out.append(scn("c12-A-%d" % k, pre + [
+            {"do": "sopen", "h": "s", "c": 2, "sub": S1, "max": 10}, {"do": "settle"},
+            call(1, op="DeleteSub", name=S1), {"do": "swait", "h": "s"}], seed=sd, cap=cap))
+        # B: request side closed first.
+        out.append(scn("c12-B-%d" % k, pre + [
+            {"do": "sopen", "h": "s", "c": 2, "sub": S1, "max": 10}, {"do": "settle"},
+            {"do": "sclose", "h": "s"}, {"do": "settle"},
+            call(1, op="DeleteSub", name=S1), {"do": "swait", "h": "s"}], seed=sd, cap=cap))
+        # C: a blocked unary Pull.
+        out.append(scn("c12-C-%d" % k, [call(1, op="CreateTopic", name=T1), call(1, op="CreateSub", name=S1, topic=T1, ack=10),
+            start("p", 3, op="Pull", sub=S1, max=1, ri=False), {"do": "settle"},
+            call(1, op="DeleteSub", name=S1), {"do": "wait", "h": "p"}], seed=sd, cap=cap))
+        # D: requests in flight while the deletion is processed.
+        out.append(scn("c12-D-%d" % k, pre + [
+            call(4, op="Pull", sub=S1, max=1, ri=True),
+            start("a", 5, op="Ack", sub=S1, acks=[{"d": 1}]), y,
+            start("d", 1, op="DeleteSub", name=S1),
+            start("m", 6, op="ModAck", sub=S1, acks=[{"d": 1}], secs=30),
+            start("p", 7, op="Pull", sub=S1, max=1, ri=True), y,
+            start("g", 8, op="GetSub", name=S1),
+            {"do": "waitall"}], seed=sd, cap=cap))
+        # E: stream + blocked pull + publish racing with the deletion.
+        out.append(scn("c12-E-%d" % k, pre + [
+            {"do": "sopen", "h": "s", "c": 2, "sub": S1, "max": 1},
+            start("p", 3, op="Pull", sub=S1, max=1, ri=False), {"do": "settle"},
+            start("pub", 4, op="Publish", topic=T1, msgs=[{"p": "late-%d" % k}]), y,
+            start("d", 1, op="DeleteSub", name=S1),
+            {"do": "wait", "h": "d"}, {"do": "wait", "h": "pub"}, {"do": "wait", "h": "p"}, {"do": "swait", "h": "s"}],
+            seed=sd, cap=cap))
+    return out
+
+
+def plan_c12(prop, tier, seed, t0):
+    n = 64 if tier == "quick" else 2000
+    return scenario_check(prop, tier, seed, t0, c12_scenarios(n, seed), explore=[("churn", 48, 2000)])
+
+
+RELEVANT["C12"] = {"send", "s.del1"}
+
 PLANS = {
     "C01": plan_c01, "C02": plan_c02, "C03": plan_c03, "C04": plan_c04, "C05": plan_c05,
     "C08": plan_c08, "C09": plan_c09, "C10": plan_c10, "C11": plan_c11, "C13": plan_c13, "C15": plan_c15,
+    "C12": plan_c12,
 }
